@@ -286,6 +286,16 @@ pub fn run(report: &Report, thorough: bool) -> Evidence {
             }
         }
     }
+    // option sweep (plan 2): one-unit words over the reduced unit set with each single one (and all) of the options
+    // the equivalence must not depend on switched on {English, suggestions (no database), number pad, ANSI, smart quotes},
+    // x the 16 helper settings
+    for setting in 0..16u32 {
+        for other in [1u32, 2, 4, 8, 16, 31] {
+            for u in 0..small_units.len() {
+                items.push((setting | other << 4, u, 2));
+            }
+        }
+    }
     par_for(
         items.len(),
         4,
@@ -293,13 +303,21 @@ pub fn run(report: &Report, thorough: bool) -> Evidence {
         |xdg, idx| {
             let (setting, first, plan) = items[idx];
             let units: &[Unit] = if plan == 0 { &full_units } else { &small_units };
-            let depth = if plan == 0 { 2 } else { 3 };
+            let depth = if plan == 0 { 2 } else if plan == 1 { 3 } else { 1 };
             let mut o = Opts::fixed(&layout, "", xdg);
             o.vowel = setting & 1 != 0;
             o.chandra = setting & 2 != 0;
             o.kar = setting & 4 != 0;
             o.reph = setting & 8 != 0;
             o.smart = false;
+            if plan == 2 {
+                let other = setting >> 4;
+                o.english = other & 1 != 0;
+                o.fsugg = other & 2 != 0;
+                o.numpad = other & 4 != 0;
+                o.ansi = other & 8 != 0;
+                o.smart = other & 16 != 0;
+            }
             let mut oa = o.clone();
             oa.karorder = true;
             let mut a = Ctx::new(&oa).expect("ctx");
@@ -317,7 +335,9 @@ pub fn run(report: &Report, thorough: bool) -> Evidence {
                 if ta.buf != tb.buf || ta.pending != 0 {
                     w.viol("order-mismatch", format!("diff:{}", units[first].class), &path, &[], format!("typewriter order gives {:?} (waiting sign {}), Unicode order gives {:?}", ta.buf, ta.pending, tb.buf));
                 } else {
-                    w.rec(&mut path, depth - 1);
+                    if depth > 1 {
+                        w.rec(&mut path, depth - 1);
+                    }
                 }
             }
             words.fetch_add(w.words, Ordering::Relaxed);
